@@ -1,14 +1,1364 @@
-//! Suite `client` (stub: replaced by the owner of the suite).
+//! Suite `client`: the client side of the protocol (C07; client halves of C04, C05).
+//! Real `varlink::Connection` + `MethodCall<Value, Value, varlink::Error>` over a
+//! `UnixStream::pair()` against a scripted fake server thread.
+//!
+//! Case kinds (one S-expression per line):
+//!
+//!   (kind <reply>)                                   ErrorKind::from(reply), directly
+//!   (seq <objs> <ops> <groups> <wbudget>)            one thread, scripted server
+//!   (gated <objs> <progs> (sched t*))                2..8 real threads, controlled schedule, echo server
+//!   (free <objs> <progs> <seed>)                     2..8 real threads running freely (random yields,
+//!                                                    retry while busy), echo server
+//!
+//!   objs   = (objs (x<method> <params>)*)
+//!   ops    = (ops <op>*)            op = (call i)|(upgrade i)|(oneway i)|(more i)|(next i)|(recv i)
+//!   progs  = (progs (p <op>*)*)     one operation list per thread
+//!   groups = (groups <group>*)      group 0 is sent on connect, group n after the n-th request arrived
+//!   group  = (g <close t|f> <frame>*)
+//!   frame  = (f b<bytes> <dec>)     a NUL-terminated message; dec = what serde_json says about it
+//!          | (part b<bytes> <dec>)  bytes without the NUL (only useful right before a close); dec is about
+//!                                   the bytes minus the last one (that is what recv() parses)
+//!          | (ioerr t|f)            the client's read fails (t: with ConnectionReset)
+//!   dec    = bad | <reply>          reply = (r <continues> <error> <params>)
+//!   wbudget = - | n                 number of writes of the client that succeed
+//!
+//! Observations:
+//!   (kind-obs <kind>)
+//!   (obs (res (<thread> <res>)*) (log <req>*) (slots <reader t|f> <writer t|f>) <blocked t|f>)
+//!   (free-obs (threads (<res>*)*) (logs (<req>*)*) (slots r w) x<anomaly>)
+//!   res  = (ok <json>) | unit | none | noobj | (err <kind>)
+//!   kind = io | closed | badjson | (inf x) | (ip x) | (mnf x) | (mni x) | (reply c e p) | called | busy | old | (other x..)
+//!   req  = (req <more> <oneway> <upgrade> x<method> <params>) | (rawreq b<bytes>)
+use crate::rng::Rng;
 use crate::sx::{self, Sx};
 use crate::{Case, Ctx, Suite};
+use serde_json::{json, Value};
+use std::cell::Cell;
+use std::collections::HashMap;
+use std::io::{BufRead, BufReader, Read, Write};
+use std::net::Shutdown;
+use std::os::unix::net::UnixStream;
+use std::sync::atomic::{AtomicBool, Ordering};
+use std::sync::{Arc, Condvar, Mutex, RwLock};
+use std::time::Duration;
+use varlink::{Connection, ErrorKind, MethodCall, Reply};
 
 pub struct ClientSuite;
 
-impl Suite for ClientSuite {
-    fn generate(&self, _ctx: &Ctx) -> Vec<Case> {
-        Vec::new()
+type Call = MethodCall<Value, Value, varlink::Error>;
+
+const MARK_IOERR: u8 = 0x01;
+const MARK_RESET: u8 = 0x02;
+const BLOCK_TIMEOUT_MS: u64 = 250;
+
+thread_local! {
+    static WORKER_ID: Cell<usize> = Cell::new(usize::MAX);
+}
+
+// ---------------------------------------------------------------------------
+// canonical forms
+
+pub fn reply_sx(r: &Reply) -> Sx {
+    sx::tagged(
+        "r",
+        vec![sx::opt_bool(r.continues), sx::opt_str(r.error.as_deref()), sx::opt_json(r.parameters.as_ref())],
+    )
+}
+
+pub fn reply_of_sx(s: &Sx) -> Option<Reply> {
+    let l = s.as_list()?;
+    if l.first()?.as_atom()? != "r" {
+        return None;
     }
-    fn run(&self, _ctx: &Ctx, _input: &Sx) -> Sx {
-        sx::atom("stub")
+    let c = l.get(1)?.as_opt_bool()?;
+    let e = match l.get(2)?.as_atom()? {
+        "-" => None,
+        _ => Some(l.get(2)?.as_str()?),
+    };
+    let p = match l.get(3)? {
+        Sx::Atom(a) if a == "-" => None,
+        x => Some(x.to_json()?),
+    };
+    Some(Reply { continues: c, error: e.map(|s| s.into()), parameters: p })
+}
+
+pub fn kind_sx(k: &ErrorKind, blocked: bool) -> Sx {
+    match k {
+        ErrorKind::Io(_) if blocked => sx::atom("blocked"),
+        ErrorKind::Io(_) => sx::atom("io"),
+        ErrorKind::ConnectionClosed => sx::atom("closed"),
+        ErrorKind::SerdeJsonSer(_) => sx::atom("badjson"),
+        ErrorKind::InterfaceNotFound(s) => sx::tagged("inf", vec![sx::xs(s)]),
+        ErrorKind::InvalidParameter(s) => sx::tagged("ip", vec![sx::xs(s)]),
+        ErrorKind::MethodNotFound(s) => sx::tagged("mnf", vec![sx::xs(s)]),
+        ErrorKind::MethodNotImplemented(s) => sx::tagged("mni", vec![sx::xs(s)]),
+        ErrorKind::VarlinkErrorReply(r) => {
+            sx::tagged("reply", vec![sx::opt_bool(r.continues), sx::opt_str(r.error.as_deref()), sx::opt_json(r.parameters.as_ref())])
+        }
+        ErrorKind::MethodCalledAlready => sx::atom("called"),
+        ErrorKind::ConnectionBusy => sx::atom("busy"),
+        ErrorKind::IteratorOldReply => sx::atom("old"),
+        other => sx::tagged("other", vec![sx::xs(&format!("{:?}", other).chars().take(24).collect::<String>())]),
+    }
+}
+
+fn res_value(r: Result<Value, varlink::Error>, blocked: bool) -> Sx {
+    match r {
+        Ok(v) => sx::tagged("ok", vec![sx::json(&v)]),
+        Err(e) => sx::tagged("err", vec![kind_sx(e.kind(), blocked)]),
+    }
+}
+
+fn res_unit<T>(r: Result<T, varlink::Error>, blocked: bool) -> Sx {
+    match r {
+        Ok(_) => sx::atom("unit"),
+        Err(e) => sx::tagged("err", vec![kind_sx(e.kind(), blocked)]),
+    }
+}
+
+/// what the server received, as a raw JSON view (null and absent stay distinct)
+pub fn req_sx(frame: &[u8]) -> Sx {
+    let raw = || sx::tagged("rawreq", vec![sx::bs(frame)]);
+    let v: Value = match serde_json::from_slice(frame) {
+        Ok(v) => v,
+        Err(_) => return raw(),
+    };
+    let o = match v.as_object() {
+        Some(o) => o,
+        None => return raw(),
+    };
+    if !o.keys().all(|k| ["more", "oneway", "upgrade", "method", "parameters"].contains(&k.as_str())) {
+        return raw();
+    }
+    let flag = |k: &str| -> Option<Option<bool>> {
+        match o.get(k) {
+            None => Some(None),
+            Some(Value::Bool(b)) => Some(Some(*b)),
+            _ => None,
+        }
+    };
+    match (flag("more"), flag("oneway"), flag("upgrade"), o.get("method").and_then(|m| m.as_str())) {
+        (Some(m), Some(ow), Some(up), Some(meth)) => sx::tagged(
+            "req",
+            vec![sx::opt_bool(m), sx::opt_bool(ow), sx::opt_bool(up), sx::xs(meth), sx::opt_json(o.get("parameters"))],
+        ),
+        _ => raw(),
+    }
+}
+
+// ---------------------------------------------------------------------------
+// reader / writer wrappers around the client's end of the socketpair
+
+/// scheduler shared by the worker threads of a `gated` case
+pub struct Ctl {
+    pub st: Mutex<CtlState>,
+    pub cv: Condvar,
+}
+
+pub struct CtlState {
+    pub go: Vec<bool>,
+    pub acks: Vec<u64>,
+    pub at_gate: Vec<bool>,
+    pub finished: Vec<bool>,
+    pub abort: bool,
+}
+
+impl Ctl {
+    fn new(n: usize) -> Arc<Ctl> {
+        Arc::new(Ctl {
+            st: Mutex::new(CtlState { go: vec![false; n], acks: vec![0; n], at_gate: vec![false; n], finished: vec![false; n], abort: false }),
+            cv: Condvar::new(),
+        })
+    }
+    /// worker side: report a stable point and wait for permission to go on
+    fn pause(&self, t: usize, at_gate: bool) {
+        let mut st = self.st.lock().unwrap();
+        st.at_gate[t] = at_gate;
+        st.acks[t] += 1;
+        self.cv.notify_all();
+        while !st.go[t] && !st.abort {
+            st = self.cv.wait(st).unwrap();
+        }
+        st.go[t] = false;
+        st.at_gate[t] = false;
+    }
+    fn finish(&self, t: usize) {
+        let mut st = self.st.lock().unwrap();
+        st.finished[t] = true;
+        st.acks[t] += 1;
+        self.cv.notify_all();
+    }
+    /// scheduler side: let thread t run to its next stable point; false on timeout
+    fn kick(&self, t: usize) -> bool {
+        let mut st = self.st.lock().unwrap();
+        let before = st.acks[t];
+        st.go[t] = true;
+        self.cv.notify_all();
+        let deadline = std::time::Instant::now() + Duration::from_secs(5);
+        while st.acks[t] == before {
+            let now = std::time::Instant::now();
+            if now >= deadline {
+                return false;
+            }
+            let (g, _) = self.cv.wait_timeout(st, deadline - now).unwrap();
+            st = g;
+        }
+        true
+    }
+}
+
+pub struct FaultReader {
+    inner: UnixStream,
+    pending: Vec<u8>,
+    eof: bool,
+    blocked: Arc<AtomicBool>,
+    /// deliver at most one frame per read() and pass the gate before each
+    gate: Option<Arc<Ctl>>,
+}
+
+impl Read for FaultReader {
+    fn read(&mut self, buf: &mut [u8]) -> std::io::Result<usize> {
+        if buf.is_empty() {
+            return Ok(0);
+        }
+        if self.pending.is_empty() {
+            if let Some(ctl) = &self.gate {
+                let t = WORKER_ID.with(|w| w.get());
+                if t != usize::MAX {
+                    ctl.pause(t, true);
+                }
+            }
+            // fill until a whole frame, a marker or EOF is there
+            while !self.eof && !self.pending.iter().any(|b| *b == 0 || *b == MARK_IOERR || *b == MARK_RESET) {
+                let mut tmp = [0u8; 4096];
+                match self.inner.read(&mut tmp) {
+                    Ok(0) => self.eof = true,
+                    Ok(n) => self.pending.extend_from_slice(&tmp[..n]),
+                    Err(e) if e.kind() == std::io::ErrorKind::Interrupted => {}
+                    Err(e) if e.kind() == std::io::ErrorKind::WouldBlock || e.kind() == std::io::ErrorKind::TimedOut => {
+                        self.blocked.store(true, Ordering::SeqCst);
+                        return Err(std::io::Error::new(std::io::ErrorKind::TimedOut, "blocked"));
+                    }
+                    Err(e) => return Err(e),
+                }
+            }
+        }
+        if self.pending.is_empty() {
+            return Ok(0);
+        }
+        match self.pending[0] {
+            MARK_IOERR => {
+                self.pending.remove(0);
+                return Err(std::io::Error::new(std::io::ErrorKind::Other, "injected"));
+            }
+            MARK_RESET => {
+                self.pending.remove(0);
+                return Err(std::io::Error::new(std::io::ErrorKind::ConnectionReset, "injected"));
+            }
+            _ => {}
+        }
+        let mut n = self.pending.len().min(buf.len());
+        if let Some(m) = self.pending[..n].iter().position(|b| *b == MARK_IOERR || *b == MARK_RESET) {
+            n = m;
+        }
+        if self.gate.is_some() {
+            if let Some(z) = self.pending[..n].iter().position(|b| *b == 0) {
+                n = z + 1;
+            }
+        }
+        buf[..n].copy_from_slice(&self.pending[..n]);
+        self.pending.drain(..n);
+        Ok(n)
+    }
+}
+
+pub struct FaultWriter {
+    inner: UnixStream,
+    budget: Option<usize>,
+}
+
+impl Write for FaultWriter {
+    fn write(&mut self, buf: &[u8]) -> std::io::Result<usize> {
+        if let Some(b) = self.budget.as_mut() {
+            if *b == 0 {
+                return Err(std::io::Error::new(std::io::ErrorKind::Other, "injected write failure"));
+            }
+            *b -= 1;
+        }
+        self.inner.write_all(buf)?;
+        Ok(buf.len())
+    }
+    fn flush(&mut self) -> std::io::Result<()> {
+        self.inner.flush()
+    }
+}
+
+pub struct Rig {
+    pub conn: Arc<RwLock<Connection>>,
+    pub client_end: UnixStream,
+    pub server_end: UnixStream,
+    pub blocked: Arc<AtomicBool>,
+}
+
+pub fn rig(wbudget: Option<usize>, gate: Option<Arc<Ctl>>) -> Rig {
+    let (cl, sv) = UnixStream::pair().expect("socketpair");
+    let blocked = Arc::new(AtomicBool::new(false));
+    let rd = cl.try_clone().unwrap();
+    rd.set_read_timeout(Some(Duration::from_millis(BLOCK_TIMEOUT_MS))).unwrap();
+    let reader = FaultReader { inner: rd, pending: Vec::new(), eof: false, blocked: blocked.clone(), gate };
+    let writer = FaultWriter { inner: cl.try_clone().unwrap(), budget: wbudget };
+    let mut c = Connection::default();
+    c.reader = Some(BufReader::new(Box::new(reader)));
+    c.writer = Some(Box::new(writer));
+    Rig { conn: Arc::new(RwLock::new(c)), client_end: cl, server_end: sv, blocked }
+}
+
+// ---------------------------------------------------------------------------
+// servers
+
+#[derive(Clone)]
+struct Group {
+    close: bool,
+    bytes: Vec<u8>,
+}
+
+fn parse_groups(s: &Sx) -> Vec<Group> {
+    let mut out = Vec::new();
+    for g in &s.as_list().unwrap()[1..] {
+        let gl = g.as_list().unwrap();
+        let close = gl[1].as_atom() == Some("t");
+        let mut bytes = Vec::new();
+        for f in &gl[2..] {
+            let fl = f.as_list().unwrap();
+            match fl[0].as_atom().unwrap() {
+                "f" => {
+                    bytes.extend_from_slice(&fl[1].as_bytes().unwrap());
+                    bytes.push(0);
+                }
+                "part" => bytes.extend_from_slice(&fl[1].as_bytes().unwrap()),
+                "ioerr" => bytes.push(if fl[1].as_atom() == Some("t") { MARK_RESET } else { MARK_IOERR }),
+                other => panic!("frame kind {}", other),
+            }
+        }
+        out.push(Group { close, bytes });
+    }
+    out
+}
+
+/// scripted server: group 0 on connect, group n after the n-th request; returns the request log
+fn scripted_server(sv: UnixStream, groups: Vec<Group>) -> std::thread::JoinHandle<Vec<Vec<u8>>> {
+    std::thread::spawn(move || {
+        let mut w = sv.try_clone().unwrap();
+        let mut rd = BufReader::new(sv);
+        let mut log: Vec<Vec<u8>> = Vec::new();
+        let mut closed = false;
+        let mut send = |n: usize, closed: &mut bool| {
+            if let Some(g) = groups.get(n) {
+                if !*closed {
+                    let _ = w.write_all(&g.bytes);
+                    let _ = w.flush();
+                    if g.close {
+                        let _ = w.shutdown(Shutdown::Write);
+                        *closed = true;
+                    }
+                }
+            }
+        };
+        send(0, &mut closed);
+        loop {
+            let mut buf = Vec::new();
+            match rd.read_until(0, &mut buf) {
+                Ok(0) | Err(_) => break,
+                Ok(_) => {
+                    if buf.last() == Some(&0) {
+                        buf.pop();
+                        log.push(buf);
+                        let n = log.len();
+                        send(n, &mut closed);
+                    } else {
+                        log.push(buf); // dangling bytes: show them
+                        break;
+                    }
+                }
+            }
+        }
+        log
+    })
+}
+
+/// the echo service of the thread cases: one final reply per non-oneway request, preceded by
+/// `k` continues replies when the request carries `more`; `err` turns the final reply into an error
+pub fn echo_frames(req: &Value) -> Vec<Value> {
+    let o = req.as_object();
+    let flag = |k: &str| o.and_then(|o| o.get(k)).and_then(|v| v.as_bool()).unwrap_or(false);
+    if flag("oneway") {
+        return Vec::new();
+    }
+    let p = o.and_then(|o| o.get("parameters")).cloned().unwrap_or(Value::Null);
+    let tok = p.get("token").cloned().unwrap_or(Value::Null);
+    let k = if flag("more") { p.get("k").and_then(|k| k.as_u64()).unwrap_or(0) } else { 0 };
+    let mut out = Vec::new();
+    for i in 0..k {
+        out.push(json!({"continues": true, "parameters": {"i": i, "token": tok}}));
+    }
+    match p.get("err").and_then(|e| e.as_str()) {
+        Some(name) => out.push(json!({"error": name, "parameters": {"i": k, "token": tok}})),
+        None => out.push(json!({"parameters": {"i": k, "token": tok}})),
+    }
+    out
+}
+
+fn echo_server(sv: UnixStream) -> std::thread::JoinHandle<Vec<Vec<u8>>> {
+    std::thread::spawn(move || {
+        let mut w = sv.try_clone().unwrap();
+        let mut rd = BufReader::new(sv);
+        let mut log: Vec<Vec<u8>> = Vec::new();
+        loop {
+            let mut buf = Vec::new();
+            match rd.read_until(0, &mut buf) {
+                Ok(0) | Err(_) => break,
+                Ok(_) => {
+                    if buf.last() == Some(&0) {
+                        buf.pop();
+                    }
+                    let v: Value = serde_json::from_slice(&buf).unwrap_or(Value::Null);
+                    log.push(buf);
+                    let mut out = Vec::new();
+                    for f in echo_frames(&v) {
+                        out.extend_from_slice(serde_json::to_string(&f).unwrap().as_bytes());
+                        out.push(0);
+                    }
+                    let _ = w.write_all(&out);
+                    let _ = w.flush();
+                }
+            }
+        }
+        log
+    })
+}
+
+// ---------------------------------------------------------------------------
+// running operations
+
+#[derive(Clone, Debug)]
+enum Op {
+    Call(usize),
+    Upgrade(usize),
+    Oneway(usize),
+    More(usize),
+    Next(usize),
+    Recv(usize),
+}
+
+impl Op {
+    fn obj(&self) -> usize {
+        match self {
+            Op::Call(i) | Op::Upgrade(i) | Op::Oneway(i) | Op::More(i) | Op::Next(i) | Op::Recv(i) => *i,
+        }
+    }
+    fn sx(&self) -> Sx {
+        let (n, i) = match self {
+            Op::Call(i) => ("call", i),
+            Op::Upgrade(i) => ("upgrade", i),
+            Op::Oneway(i) => ("oneway", i),
+            Op::More(i) => ("more", i),
+            Op::Next(i) => ("next", i),
+            Op::Recv(i) => ("recv", i),
+        };
+        sx::tagged(n, vec![sx::nat(*i)])
+    }
+}
+
+fn parse_op(s: &Sx) -> Op {
+    let l = s.as_list().unwrap();
+    let i = l[1].as_usize().unwrap();
+    match l[0].as_atom().unwrap() {
+        "call" => Op::Call(i),
+        "upgrade" => Op::Upgrade(i),
+        "oneway" => Op::Oneway(i),
+        "more" => Op::More(i),
+        "next" => Op::Next(i),
+        "recv" => Op::Recv(i),
+        other => panic!("op {}", other),
+    }
+}
+
+fn parse_objs(s: &Sx) -> Vec<(String, Value)> {
+    s.as_list().unwrap()[1..]
+        .iter()
+        .map(|o| {
+            let l = o.as_list().unwrap();
+            (l[0].as_str().unwrap(), l[1].to_json().unwrap())
+        })
+        .collect()
+}
+
+fn exec_op(objs: &mut HashMap<usize, Call>, op: &Op, blocked: &AtomicBool) -> Sx {
+    let c = match objs.get_mut(&op.obj()) {
+        Some(c) => c,
+        None => return sx::atom("noobj"),
+    };
+    let r = match op {
+        Op::Call(_) => {
+            let r = c.call();
+            res_value(r, blocked.load(Ordering::SeqCst))
+        }
+        Op::Upgrade(_) => {
+            let r = c.upgrade();
+            res_value(r, blocked.load(Ordering::SeqCst))
+        }
+        Op::Recv(_) => {
+            let r = c.recv();
+            res_value(r, blocked.load(Ordering::SeqCst))
+        }
+        Op::Oneway(_) => {
+            let r = c.oneway();
+            res_unit(r, blocked.load(Ordering::SeqCst))
+        }
+        Op::More(_) => {
+            let r = c.more();
+            res_unit(r, blocked.load(Ordering::SeqCst))
+        }
+        Op::Next(_) => match c.next() {
+            None => sx::atom("none"),
+            Some(r) => res_value(r, blocked.load(Ordering::SeqCst)),
+        },
+    };
+    r
+}
+
+fn is_blocked(res: &Sx) -> bool {
+    res.render() == "(err blocked)"
+}
+
+fn slots_sx(conn: &Arc<RwLock<Connection>>) -> Sx {
+    let c = conn.read().unwrap();
+    sx::tagged("slots", vec![sx::boolean(c.reader.is_some()), sx::boolean(c.writer.is_some())])
+}
+
+fn run_seq(input: &Sx) -> Sx {
+    let l = input.as_list().unwrap();
+    let objs_spec = parse_objs(&l[1]);
+    let ops: Vec<Op> = l[2].as_list().unwrap()[1..].iter().map(parse_op).collect();
+    let groups = parse_groups(&l[3]);
+    let wbudget = l[4].as_usize();
+    let rig = rig(wbudget, None);
+    let server = scripted_server(rig.server_end.try_clone().unwrap(), groups);
+    drop(rig.server_end);
+    let mut objs: HashMap<usize, Call> = HashMap::new();
+    for (i, (m, p)) in objs_spec.iter().enumerate() {
+        objs.insert(i, MethodCall::new(rig.conn.clone(), m.clone(), p.clone()));
+    }
+    let mut res = vec![sx::atom("res")];
+    let mut blocked = false;
+    for op in &ops {
+        let r = exec_op(&mut objs, op, &rig.blocked);
+        if is_blocked(&r) {
+            blocked = true;
+            break;
+        }
+        res.push(sx::list(vec![sx::nat(0), r]));
+    }
+    let slots = if blocked { sx::tagged("slots", vec![sx::atom("-"), sx::atom("-")]) } else { slots_sx(&rig.conn) };
+    drop(objs);
+    drop(rig.conn);
+    let _ = rig.client_end.shutdown(Shutdown::Both);
+    let log = server.join().unwrap_or_default();
+    let mut logsx = vec![sx::atom("log")];
+    logsx.extend(log.iter().map(|f| req_sx(f)));
+    sx::tagged("obs", vec![sx::list(res), sx::list(logsx), slots, sx::boolean(blocked)])
+}
+
+fn parse_progs(s: &Sx) -> Vec<Vec<Op>> {
+    s.as_list().unwrap()[1..].iter().map(|p| p.as_list().unwrap()[1..].iter().map(parse_op).collect()).collect()
+}
+
+/// 2..8 real threads on one Arc<RwLock<Connection>>; the schedule of the case decides which thread
+/// performs its next atomic step (a send under the write lock, or the read of one frame + restore)
+fn run_gated(input: &Sx) -> Sx {
+    let l = input.as_list().unwrap();
+    let objs_spec = parse_objs(&l[1]);
+    let progs = parse_progs(&l[2]);
+    let sched: Vec<usize> = l[3].as_list().unwrap()[1..].iter().map(|t| t.as_usize().unwrap()).collect();
+    let n = progs.len();
+    let ctl = Ctl::new(n);
+    let rig = rig(None, Some(ctl.clone()));
+    let server = echo_server(rig.server_end.try_clone().unwrap());
+    drop(rig.server_end);
+    let trace: Arc<Mutex<Vec<Sx>>> = Arc::new(Mutex::new(Vec::new()));
+    // each object belongs to the thread that uses it first in program order
+    let mut owner: HashMap<usize, usize> = HashMap::new();
+    for (t, p) in progs.iter().enumerate() {
+        for op in p {
+            owner.entry(op.obj()).or_insert(t);
+        }
+    }
+    let mut handles = Vec::new();
+    for (t, prog) in progs.iter().cloned().enumerate() {
+        let mut objs: HashMap<usize, Call> = HashMap::new();
+        for (i, (m, p)) in objs_spec.iter().enumerate() {
+            if owner.get(&i) == Some(&t) {
+                objs.insert(i, MethodCall::new(rig.conn.clone(), m.clone(), p.clone()));
+            }
+        }
+        let ctl = ctl.clone();
+        let trace = trace.clone();
+        let blocked = rig.blocked.clone();
+        handles.push(std::thread::spawn(move || {
+            WORKER_ID.with(|w| w.set(t));
+            for op in &prog {
+                ctl.pause(t, false);
+                if ctl.st.lock().unwrap().abort {
+                    break;
+                }
+                let r = exec_op(&mut objs, op, &blocked);
+                trace.lock().unwrap().push(sx::list(vec![sx::nat(t), r]));
+            }
+            ctl.finish(t);
+            drop(objs);
+        }));
+    }
+    // wait until every worker sits at its first stable point
+    for t in 0..n {
+        let mut st = ctl.st.lock().unwrap();
+        while st.acks[t] == 0 {
+            st = ctl.cv.wait(st).unwrap();
+        }
+    }
+    let mut pc = vec![0usize; n];
+    let mut anomaly = String::new();
+    for &t in &sched {
+        if t >= n {
+            continue;
+        }
+        let (fin, gate) = {
+            let st = ctl.st.lock().unwrap();
+            (st.finished[t], st.at_gate[t])
+        };
+        if fin {
+            continue;
+        }
+        if gate {
+            // the read of one frame, the restore, and the return of the operation
+            if !ctl.kick(t) {
+                anomaly = "stuck-after-gate".into();
+                break;
+            }
+            continue;
+        }
+        // idle between operations (or all operations done: the kick lets the thread finish)
+        let op = progs[t].get(pc[t]).cloned();
+        pc[t] += 1;
+        if !ctl.kick(t) {
+            anomaly = "stuck-in-operation".into();
+            break;
+        }
+        let (fin, gate) = {
+            let st = ctl.st.lock().unwrap();
+            (st.finished[t], st.at_gate[t])
+        };
+        if fin {
+            continue;
+        }
+        if gate {
+            if let Some(Op::Next(_)) | Some(Op::Recv(_)) = op {
+                // reaching the reader is not a step of its own for operations that do not send
+                if !ctl.kick(t) {
+                    anomaly = "stuck-after-gate".into();
+                    break;
+                }
+            }
+        }
+    }
+    // observe, then stop: release everybody
+    let slots = slots_sx(&rig.conn);
+    let snapshot: Vec<Sx> = trace.lock().unwrap().clone();
+    {
+        let mut st = ctl.st.lock().unwrap();
+        st.abort = true;
+        ctl.cv.notify_all();
+    }
+    let _ = rig.client_end.shutdown(Shutdown::Both);
+    for h in handles {
+        let _ = h.join();
+    }
+    drop(rig.conn);
+    let log = server.join().unwrap_or_default();
+    let mut logsx = vec![sx::atom("log")];
+    logsx.extend(log.iter().map(|f| req_sx(f)));
+    let mut res = vec![sx::atom("res")];
+    res.extend(snapshot);
+    if !anomaly.is_empty() {
+        res.push(sx::tagged("anomaly", vec![sx::xs(&anomaly)]));
+    }
+    sx::tagged("obs", vec![sx::list(res), sx::list(logsx), slots, sx::boolean(false)])
+}
+
+/// free-running threads: every operation that fails with ConnectionBusy *before having been sent*
+/// cannot be retried on the same object (the object is spent), so a thread that meets `busy` takes the
+/// next spare object for the same request and tries again (with yields in between)
+fn run_free(input: &Sx) -> Sx {
+    let l = input.as_list().unwrap();
+    let objs_spec = parse_objs(&l[1]);
+    let progs = parse_progs(&l[2]);
+    let seed = l[3].as_usize().unwrap() as u64;
+    let n = progs.len();
+    let rig = rig(None, None);
+    let server = echo_server(rig.server_end.try_clone().unwrap());
+    drop(rig.server_end);
+    let start = Arc::new(std::sync::Barrier::new(n));
+    let mut handles = Vec::new();
+    for (t, prog) in progs.iter().cloned().enumerate() {
+        let conn = rig.conn.clone();
+        let spec = objs_spec.clone();
+        let blocked = rig.blocked.clone();
+        let start = start.clone();
+        let mut rng = Rng::new(seed.wrapping_mul(1000).wrapping_add(t as u64));
+        handles.push(std::thread::spawn(move || {
+            let mut results: Vec<Sx> = Vec::new();
+            let mut retries = 0usize;
+            start.wait();
+            let mut cur: HashMap<usize, Call> = HashMap::new();
+            for op in &prog {
+                let i = op.obj();
+                loop {
+                    for _ in 0..rng.below(4) {
+                        std::thread::yield_now();
+                    }
+                    let sends = matches!(op, Op::Call(_) | Op::Upgrade(_) | Op::Oneway(_) | Op::More(_));
+                    if sends {
+                        let (m, p) = spec[i].clone();
+                        cur.insert(i, MethodCall::new(conn.clone(), m, p));
+                    }
+                    let r = exec_op(&mut cur, op, &blocked);
+                    if sends && r.render() == "(err busy)" && retries < 2_000_000 {
+                        retries += 1;
+                        continue;
+                    }
+                    results.push(r);
+                    break;
+                }
+            }
+            drop(cur);
+            results
+        }));
+    }
+    let mut threads = vec![sx::atom("threads")];
+    let mut anomaly = String::new();
+    for h in handles {
+        match h.join() {
+            Ok(r) => threads.push(sx::list(r)),
+            Err(_) => {
+                anomaly = "thread-panicked".into();
+                threads.push(sx::list(vec![]));
+            }
+        }
+    }
+    let slots = slots_sx(&rig.conn);
+    let _ = rig.client_end.shutdown(Shutdown::Both);
+    drop(rig.conn);
+    let log = server.join().unwrap_or_default();
+    // the global order is the observed linearisation; per-thread projections are schedule independent
+    let mut per: Vec<Vec<Sx>> = vec![Vec::new(); n];
+    let mut lin = vec![sx::atom("lin")];
+    for f in &log {
+        let v: Value = serde_json::from_slice(f).unwrap_or(Value::Null);
+        let t = v.get("parameters").and_then(|p| p.get("thread")).and_then(|t| t.as_u64());
+        match t {
+            Some(t) if (t as usize) < n => {
+                per[t as usize].push(req_sx(f));
+                lin.push(sx::nat(t as usize));
+            }
+            _ => anomaly = "request-without-thread-tag".into(),
+        }
+    }
+    // replay the observed linearisation sequentially on a fresh real connection: every thread must see the
+    // same results as in the concurrent run
+    let replay_same = replay_linearisation(&objs_spec, &progs, &lin[1..]) == threads[1..].to_vec();
+    if !replay_same && anomaly.is_empty() {
+        anomaly = "sequential-replay-of-the-observed-linearisation-differs".into();
+    }
+    let mut logs = vec![sx::atom("logs")];
+    logs.extend(per.into_iter().map(sx::list));
+    sx::tagged("free-obs", vec![sx::list(threads), sx::list(logs), slots, sx::xs(&anomaly)])
+}
+
+/// the threads' operations executed one after the other in the order in which their requests reached the
+/// server (operations that send nothing run right after the preceding operation of their thread)
+fn replay_linearisation(objs_spec: &[(String, Value)], progs: &[Vec<Op>], lin: &[Sx]) -> Vec<Sx> {
+    let rig = rig(None, None);
+    let server = echo_server(rig.server_end.try_clone().unwrap());
+    let mut pcs = vec![0usize; progs.len()];
+    let mut objs: Vec<HashMap<usize, Call>> = (0..progs.len()).map(|_| HashMap::new()).collect();
+    let mut results: Vec<Vec<Sx>> = vec![Vec::new(); progs.len()];
+    let step = |t: usize, pcs: &mut Vec<usize>, objs: &mut Vec<HashMap<usize, Call>>, results: &mut Vec<Vec<Sx>>| {
+        // run the sending operation and the non-sending operations that follow it
+        let mut first = true;
+        while pcs[t] < progs[t].len() {
+            let op = &progs[t][pcs[t]];
+            let sends = matches!(op, Op::Call(_) | Op::Upgrade(_) | Op::Oneway(_) | Op::More(_));
+            if sends && !first {
+                break;
+            }
+            if sends {
+                let (m, p) = objs_spec[op.obj()].clone();
+                objs[t].insert(op.obj(), MethodCall::new(rig.conn.clone(), m, p));
+            }
+            let r = exec_op(&mut objs[t], op, &rig.blocked);
+            results[t].push(r);
+            pcs[t] += 1;
+            first = false;
+        }
+    };
+    // leading non-sending operations
+    for t in 0..progs.len() {
+        while pcs[t] < progs[t].len() && !matches!(progs[t][pcs[t]], Op::Call(_) | Op::Upgrade(_) | Op::Oneway(_) | Op::More(_)) {
+            let op = &progs[t][pcs[t]];
+            let r = exec_op(&mut objs[t], op, &rig.blocked);
+            results[t].push(r);
+            pcs[t] += 1;
+        }
+    }
+    for e in lin {
+        if let Some(t) = e.as_usize() {
+            if t < progs.len() {
+                step(t, &mut pcs, &mut objs, &mut results);
+            }
+        }
+    }
+    drop(objs);
+    let _ = rig.client_end.shutdown(Shutdown::Both);
+    drop(rig.conn);
+    drop(rig.server_end);
+    let _ = server.join();
+    results.into_iter().map(sx::list).collect()
+}
+
+fn run_kind(input: &Sx) -> Sx {
+    let l = input.as_list().unwrap();
+    let r = reply_of_sx(&l[1]).expect("reply");
+    sx::tagged("kind-obs", vec![kind_sx(&ErrorKind::from(r), false)])
+}
+
+// ---------------------------------------------------------------------------
+// generators
+
+const STD_ERRORS: [&str; 4] = [
+    "org.varlink.service.InterfaceNotFound",
+    "org.varlink.service.InvalidParameter",
+    "org.varlink.service.MethodNotFound",
+    "org.varlink.service.MethodNotImplemented",
+];
+
+fn gen_error_name(rng: &mut Rng) -> String {
+    match rng.below(12) {
+        0..=5 => STD_ERRORS[rng.below(4)].to_string(),
+        6 => "org.example.client.Custom".into(),
+        7 => "org.varlink.service.InterfaceNotFoun".into(),
+        8 => "org.varlink.service.interfacenotfound".into(),
+        9 => String::new(),
+        10 => "org.varlink.service.InvalidParameter ".into(),
+        _ => "ü.é.Ошибка".into(),
+    }
+}
+
+fn gen_leaf(rng: &mut Rng) -> Value {
+    match rng.below(9) {
+        0 => json!("s"),
+        1 => json!("org.example.iface"),
+        2 => json!("q\"uo\\te\n\u{0}\u{7f}ü→😀"),
+        3 => json!(5),
+        4 => Value::Null,
+        5 => json!(true),
+        6 => json!(1.5),
+        7 => json!({}),
+        _ => json!(["x"]),
+    }
+}
+
+/// type-directed: the shapes serde's derive distinguishes for `struct { member: Option<String> }`
+pub fn gen_error_params(rng: &mut Rng) -> Option<Value> {
+    let member = *rng.pick(&["interface", "method", "parameter", "other", "Interface"]);
+    match rng.below(16) {
+        0 => None,
+        1 => Some(Value::Null),
+        2 => Some(json!({})),
+        3..=5 => Some(json!({ member: "the.value" })),
+        6 => Some(json!({ member: gen_leaf(rng) })),
+        7 => Some(json!({ member: "v", "extra": gen_leaf(rng) })),
+        8 => Some(json!({"interface": "i", "method": "m", "parameter": "p"})),
+        9 => Some(json!(["positional"])),
+        10 => Some(json!([])),
+        11 => Some(json!(["a", "b"])),
+        12 => Some(json!([gen_leaf(rng)])),
+        13 => Some(gen_leaf(rng)),
+        14 => Some(json!({ member: {"nested": "x"} })),
+        _ => Some(json!({ member: "" })),
+    }
+}
+
+fn gen_ok_params(rng: &mut Rng, tok: &str) -> Option<Value> {
+    match rng.below(10) {
+        0 => None,
+        1 => Some(Value::Null),
+        2 => Some(json!({})),
+        3 => Some(json!([1, "two", null])),
+        4 => Some(json!(7)),
+        5 => Some(json!({"token": tok, "big": 18446744073709551615u64, "neg": i64::MIN, "f": 0.1, "s": "q\"\\\n\u{1f}ü😀"})),
+        _ => Some(json!({"token": tok, "i": rng.below(100)})),
+    }
+}
+
+/// a reply as a JSON object on the wire (members may be null / ill-typed / unknown)
+fn gen_reply_value(rng: &mut Rng, cont: Option<bool>, tok: &str) -> Value {
+    let mut o = serde_json::Map::new();
+    if let Some(c) = cont {
+        o.insert("continues".into(), json!(c));
+    }
+    let is_err = rng.chance(2, 5);
+    if is_err {
+        o.insert("error".into(), json!(gen_error_name(rng)));
+        if let Some(p) = gen_error_params(rng) {
+            o.insert("parameters".into(), p);
+        }
+    } else {
+        if rng.chance(1, 20) {
+            o.insert("error".into(), Value::Null);
+        }
+        if let Some(p) = gen_ok_params(rng, tok) {
+            o.insert("parameters".into(), p);
+        }
+    }
+    if rng.chance(1, 25) {
+        o.insert("unknown".into(), json!(1));
+    }
+    Value::Object(o)
+}
+
+fn dec_sx(bytes: &[u8]) -> Sx {
+    match serde_json::from_slice::<Reply>(bytes) {
+        Ok(r) => reply_sx(&r),
+        Err(_) => sx::atom("bad"),
+    }
+}
+
+pub fn frame_sx(bytes: &[u8]) -> Sx {
+    sx::tagged("f", vec![sx::bs(bytes), dec_sx(bytes)])
+}
+
+pub fn part_sx(bytes: &[u8]) -> Sx {
+    let d = if bytes.is_empty() { sx::atom("bad") } else { dec_sx(&bytes[..bytes.len() - 1]) };
+    sx::tagged("part", vec![sx::bs(bytes), d])
+}
+
+fn gen_garbage(rng: &mut Rng) -> Vec<u8> {
+    match rng.below(8) {
+        0 => b"{".to_vec(),
+        1 => Vec::new(),
+        2 => b"[1,2]".to_vec(),
+        3 => b"{\"continues\":\"yes\"}".to_vec(),
+        4 => b"{\"error\":5}".to_vec(),
+        5 => vec![0xff, 0xfe, b'{', b'}'],
+        6 => b"\"reply\"".to_vec(),
+        _ => b"{\"parameters\":{}} trailing".to_vec(),
+    }
+}
+
+fn reply_frame(rng: &mut Rng, cont: Option<bool>, tok: &str) -> Sx {
+    let v = gen_reply_value(rng, cont, tok);
+    let bytes = if rng.chance(1, 10) { serde_json::to_vec_pretty(&v).unwrap() } else { serde_json::to_vec(&v).unwrap() };
+    frame_sx(&bytes)
+}
+
+struct SeqGen {
+    objs: Vec<Sx>,
+    ops: Vec<Op>,
+    groups: Vec<Sx>, // groups[0] = initial
+    tags: Vec<String>,
+    // generator-side guess of the client state
+    outstanding: Option<usize>,
+    iter_left: usize,
+}
+
+impl SeqGen {
+    fn new_obj(&mut self, rng: &mut Rng) -> usize {
+        let i = self.objs.len();
+        let params = match rng.below(8) {
+            0 => Value::Null,
+            1 => json!({}),
+            2 => json!([i]),
+            _ => json!({"token": format!("t{}", i), "n": rng.below(5)}),
+        };
+        self.objs.push(sx::list(vec![sx::xs(&format!("org.example.client.M{}", i)), sx::json(&params)]));
+        i
+    }
+
+    fn group(close: bool, frames: Vec<Sx>) -> Sx {
+        let mut v = vec![sx::atom("g"), sx::boolean(close)];
+        v.extend(frames);
+        sx::list(v)
+    }
+
+    /// the group the server sends for a request of this kind; perturbed now and then
+    fn push_group(&mut self, rng: &mut Rng, kind: &str, tok: &str) -> usize {
+        let mut frames = Vec::new();
+        let mut close = false;
+        let mut k = 0;
+        match kind {
+            "oneway" => {
+                if rng.chance(1, 25) {
+                    frames.push(reply_frame(rng, None, tok));
+                    self.tags.push("script:reply-to-oneway".into());
+                }
+            }
+            "more" => {
+                k = match rng.below(6) {
+                    0 => 0,
+                    1 => 1,
+                    2 => 2,
+                    3 => 3,
+                    _ => rng.range(0, 8),
+                };
+                for _ in 0..k {
+                    frames.push(reply_frame(rng, Some(true), tok));
+                }
+                let c = if rng.chance(1, 4) { Some(false) } else { None };
+                frames.push(reply_frame(rng, c, tok));
+            }
+            _ => {
+                if rng.chance(1, 15) {
+                    // a service that streams without being asked
+                    frames.push(reply_frame(rng, Some(true), tok));
+                    self.tags.push("script:continues-to-plain-call".into());
+                    k = 1;
+                }
+                let c = if rng.chance(1, 5) { Some(false) } else { None };
+                frames.push(reply_frame(rng, c, tok));
+            }
+        }
+        // perturbations
+        match rng.below(60) {
+            0 => {
+                let at = rng.below(frames.len() + 1);
+                frames.insert(at, frame_sx(&gen_garbage(rng)));
+                self.tags.push("script:garbage".into());
+            }
+            1 => {
+                let at = rng.below(frames.len() + 1);
+                frames.insert(at, sx::tagged("ioerr", vec![sx::boolean(rng.chance(1, 2))]));
+                self.tags.push("script:ioerr".into());
+            }
+            2 => {
+                close = true;
+                self.tags.push("script:close-after-group".into());
+            }
+            3 => {
+                if !frames.is_empty() {
+                    frames.pop();
+                }
+                close = true;
+                self.tags.push("script:eof-instead-of-final".into());
+            }
+            4 => {
+                if !frames.is_empty() {
+                    frames.pop();
+                }
+                let v = gen_reply_value(rng, None, tok);
+                let mut b = serde_json::to_vec(&v).unwrap();
+                match rng.below(3) {
+                    0 => b.truncate(b.len() / 2),
+                    1 => b.push(b'x'),
+                    _ => {}
+                }
+                frames.push(part_sx(&b));
+                close = true;
+                self.tags.push("script:partial-frame-then-eof".into());
+            }
+            5 => {
+                frames.push(reply_frame(rng, None, tok));
+                self.tags.push("script:extra-final".into());
+            }
+            _ => {}
+        }
+        self.groups.push(Self::group(close, frames));
+        k
+    }
+}
+
+fn gen_seq(rng: &mut Rng, maxlen: usize) -> (Sx, Vec<String>) {
+    let mut g = SeqGen { objs: Vec::new(), ops: Vec::new(), groups: Vec::new(), tags: Vec::new(), outstanding: None, iter_left: 0 };
+    // initial group: almost always empty
+    let init = match rng.below(40) {
+        0 => {
+            g.tags.push("script:unsolicited-initial-reply".into());
+            vec![reply_frame(rng, None, "init")]
+        }
+        1 => {
+            g.tags.push("script:closed-from-the-start".into());
+            Vec::new()
+        }
+        _ => Vec::new(),
+    };
+    let init_close = g.tags.iter().any(|t| t == "script:closed-from-the-start");
+    g.groups.push(SeqGen::group(init_close, init));
+    let len = rng.range(1, maxlen);
+    while g.ops.len() < len {
+        let choice = rng.below(100);
+        let busy = g.outstanding.is_some();
+        if busy && g.iter_left > 0 && choice < 55 {
+            // go on iterating
+            let o = g.outstanding.unwrap();
+            g.ops.push(if rng.chance(1, 8) { Op::Recv(o) } else { Op::Next(o) });
+            g.iter_left -= 1;
+            if g.iter_left == 0 {
+                g.outstanding = None;
+                if rng.chance(1, 2) {
+                    g.ops.push(Op::Next(o));
+                    g.tags.push("op:next-after-final".into());
+                }
+            }
+            continue;
+        }
+        if choice < 30 {
+            let i = g.new_obj(rng);
+            g.ops.push(if rng.chance(1, 8) { Op::Upgrade(i) } else { Op::Call(i) });
+            if busy {
+                g.tags.push("op:new-call-while-busy".into());
+            } else {
+                let k = g.push_group(rng, "call", &format!("t{}", i));
+                if k > 0 {
+                    g.outstanding = Some(i);
+                    g.iter_left = k;
+                }
+            }
+        } else if choice < 50 {
+            let i = g.new_obj(rng);
+            g.ops.push(Op::More(i));
+            if busy {
+                g.tags.push("op:more-while-busy".into());
+            } else {
+                let k = g.push_group(rng, "more", &format!("t{}", i));
+                g.outstanding = Some(i);
+                g.iter_left = k + 1;
+                g.tags.push(format!("stream:k={}", if k > 3 { "4+".to_string() } else { k.to_string() }));
+            }
+        } else if choice < 62 {
+            let i = g.new_obj(rng);
+            g.ops.push(Op::Oneway(i));
+            if busy {
+                g.tags.push("op:oneway-while-busy".into());
+            } else {
+                g.push_group(rng, "oneway", &format!("t{}", i));
+            }
+        } else if choice < 78 && !g.objs.is_empty() {
+            // second send on an object that was used before
+            let i = rng.below(g.objs.len());
+            let op = match rng.below(4) {
+                0 => Op::Call(i),
+                1 => Op::More(i),
+                2 => Op::Oneway(i),
+                _ => Op::Upgrade(i),
+            };
+            g.ops.push(op);
+            g.tags.push("op:second-send-on-same-object".into());
+        } else if choice < 88 && !g.objs.is_empty() {
+            let i = rng.below(g.objs.len());
+            g.ops.push(if rng.chance(1, 2) { Op::Next(i) } else { Op::Recv(i) });
+            g.tags.push("op:next-or-recv-on-arbitrary-object".into());
+        } else if choice < 92 {
+            let i = g.objs.len() + rng.below(2);
+            g.ops.push(Op::Next(i));
+            g.tags.push("op:missing-object".into());
+        } else {
+            // abandon the iteration: leave the stream outstanding
+            if busy {
+                g.tags.push("op:abandon-iteration".into());
+                g.iter_left = 0;
+            }
+            let i = g.new_obj(rng);
+            g.ops.push(Op::Call(i));
+            if !busy {
+                let k = g.push_group(rng, "call", &format!("t{}", i));
+                if k > 0 {
+                    g.outstanding = Some(i);
+                    g.iter_left = k;
+                }
+            }
+        }
+    }
+    let wbudget = if rng.chance(1, 30) {
+        g.tags.push("script:write-failure".into());
+        sx::nat(rng.below(3))
+    } else {
+        sx::atom("-")
+    };
+    let mut objs = vec![sx::atom("objs")];
+    objs.extend(g.objs);
+    let mut ops = vec![sx::atom("ops")];
+    ops.extend(g.ops.iter().map(|o| o.sx()));
+    let mut groups = vec![sx::atom("groups")];
+    groups.extend(g.groups);
+    g.tags.push(format!("seq:len={}", match g.ops.len() { 0..=2 => "1-2", 3..=6 => "3-6", _ => "7-12" }));
+    g.tags.sort();
+    g.tags.dedup();
+    (sx::tagged("seq", vec![sx::list(objs), sx::list(ops), sx::list(groups), wbudget]), g.tags)
+}
+
+/// programs for the thread cases: every request carries its thread number and a unique token
+fn gen_progs(rng: &mut Rng, nthreads: usize, maxops: usize, free: bool) -> (Sx, Sx) {
+    let mut objs = vec![sx::atom("objs")];
+    let mut progs = vec![sx::atom("progs")];
+    let mut idx = 0usize;
+    for t in 0..nthreads {
+        let mut p = vec![sx::atom("p")];
+        let n = rng.range(1, maxops);
+        let mut count = 0;
+        while count < n {
+            let i = idx;
+            idx += 1;
+            let tok = format!("th{}-{}", t, i);
+            match rng.below(10) {
+                0..=4 => {
+                    let mut params = json!({"token": tok, "thread": t});
+                    if rng.chance(1, 5) {
+                        params["err"] = json!(*rng.pick(&["org.example.client.Boom", "org.varlink.service.MethodNotFound"]));
+                    }
+                    objs.push(sx::list(vec![sx::xs("org.example.client.Echo"), sx::json(&params)]));
+                    p.push(Op::Call(i).sx());
+                    count += 1;
+                }
+                5..=6 => {
+                    let k = rng.below(4);
+                    objs.push(sx::list(vec![sx::xs("org.example.client.Stream"), sx::json(&json!({"token": tok, "thread": t, "k": k}))]));
+                    p.push(Op::More(i).sx());
+                    // free threads must finish the iteration (otherwise the others spin for ever)
+                    let nexts = if free { k + 2 } else { rng.range(0, k + 2) };
+                    for _ in 0..nexts {
+                        p.push(Op::Next(i).sx());
+                    }
+                    count += 1 + nexts;
+                }
+                7 => {
+                    objs.push(sx::list(vec![sx::xs("org.example.client.Fire"), sx::json(&json!({"token": tok, "thread": t}))]));
+                    p.push(Op::Oneway(i).sx());
+                    count += 1;
+                }
+                _ => {
+                    objs.push(sx::list(vec![sx::xs("org.example.client.Echo"), sx::json(&json!({"token": tok, "thread": t}))]));
+                    p.push(Op::Call(i).sx());
+                    if !free {
+                        // second send on the same object
+                        p.push(if rng.chance(1, 2) { Op::Call(i).sx() } else { Op::Oneway(i).sx() });
+                        count += 1;
+                    }
+                    count += 1;
+                }
+            }
+        }
+        progs.push(sx::list(p));
+    }
+    (sx::list(objs), sx::list(progs))
+}
+
+fn gen_gated(rng: &mut Rng) -> (Sx, Vec<String>) {
+    let n = rng.range(2, 8);
+    let (objs, progs) = gen_progs(rng, n, 5, false);
+    let total: usize = progs.as_list().unwrap()[1..].iter().map(|p| p.as_list().unwrap().len() - 1).sum();
+    let mut sched = vec![sx::atom("sched")];
+    // enough entries to finish every thread with high probability, biased to bursts
+    let mut left = total * 3 + 8;
+    while left > 0 {
+        let t = rng.below(n);
+        let burst = if rng.chance(1, 3) { rng.range(1, 3) } else { 1 };
+        for _ in 0..burst.min(left) {
+            sched.push(sx::nat(t));
+            left -= 1;
+        }
+    }
+    // then round robin so that everybody finishes
+    for r in 0..(total * 2 + 2) {
+        sched.push(sx::nat(r % n));
+    }
+    (sx::tagged("gated", vec![objs, progs, sx::list(sched)]), vec![format!("gated:threads={}", n)])
+}
+
+fn gen_free(rng: &mut Rng) -> (Sx, Vec<String>) {
+    let n = rng.range(2, 8);
+    let (objs, progs) = gen_progs(rng, n, 6, true);
+    (sx::tagged("free", vec![objs, progs, sx::nat(rng.below(1_000_000))]), vec![format!("free:threads={}", n)])
+}
+
+fn gen_kind(rng: &mut Rng) -> (Sx, Vec<String>) {
+    let cont = match rng.below(4) {
+        0 => Some(true),
+        1 => Some(false),
+        _ => None,
+    };
+    let (error, tag) = if rng.chance(1, 6) { (None, "kind:no-error") } else { (Some(gen_error_name(rng)), "kind:error") };
+    let params = gen_error_params(rng);
+    let r = Reply { continues: cont, error: error.map(|e| e.into()), parameters: params };
+    (sx::tagged("kind", vec![reply_sx(&r)]), vec![tag.to_string()])
+}
+
+impl Suite for ClientSuite {
+    fn generate(&self, ctx: &Ctx) -> Vec<Case> {
+        let mut rng = Rng::new(ctx.seed ^ 0xC07);
+        let mut cases = Vec::new();
+        if let Ok(txt) = std::fs::read_to_string(concat!(env!("CARGO_MANIFEST_DIR"), "/corpus/client.txt")) {
+            for l in txt.lines() {
+                if l.trim_start().starts_with('(') {
+                    if let Some(s) = sx::parse(l) {
+                        cases.push(Case { input: s, tags: vec!["corpus".into()] });
+                    }
+                }
+            }
+        }
+        let (n_kind, n_seq, n_gated, n_free) = if ctx.thorough { (3000, 12000, 1500, 300) } else { (600, 2500, 250, 40) };
+        // every standard error name x every parameter shape, systematically
+        for name in STD_ERRORS.iter().chain(["org.example.client.Custom"].iter()) {
+            for member in ["interface", "method", "parameter", "x"] {
+                for shape in 0..8 {
+                    let p = match shape {
+                        0 => None,
+                        1 => Some(json!({ member: "v" })),
+                        2 => Some(json!({ member: 5 })),
+                        3 => Some(json!({ member: null })),
+                        4 => Some(json!(["v"])),
+                        5 => Some(json!(["v", "w"])),
+                        6 => Some(json!([5])),
+                        _ => Some(Value::Null),
+                    };
+                    let r = Reply { continues: None, error: Some((*name).into()), parameters: p };
+                    cases.push(Case { input: sx::tagged("kind", vec![reply_sx(&r)]), tags: vec!["kind:systematic".into()] });
+                }
+            }
+        }
+        for _ in 0..n_kind {
+            let (c, tags) = gen_kind(&mut rng);
+            cases.push(Case { input: c, tags });
+        }
+        for _ in 0..n_seq {
+            let (c, tags) = gen_seq(&mut rng, 12);
+            cases.push(Case { input: c, tags });
+        }
+        for _ in 0..n_gated {
+            let (c, tags) = gen_gated(&mut rng);
+            cases.push(Case { input: c, tags });
+        }
+        for _ in 0..n_free {
+            let (c, tags) = gen_free(&mut rng);
+            cases.push(Case { input: c, tags });
+        }
+        cases
+    }
+
+    fn run(&self, _ctx: &Ctx, input: &Sx) -> Sx {
+        match input.as_list().and_then(|l| l.first()).and_then(|a| a.as_atom()) {
+            Some("kind") => run_kind(input),
+            Some("seq") => run_seq(input),
+            Some("gated") => run_gated(input),
+            Some("free") => run_free(input),
+            _ => sx::atom("unknown-case-kind"),
+        }
     }
 }
